@@ -30,6 +30,12 @@ Open Scope Z_scope.
 """
 
 
+
+class NeverFinished(Exception):
+    """some operations of a schedule are still pending after every gate was opened and the loop ran to quiescence
+    again and again: a deadlock, or work handed to something the event loop does not drive (a thread)"""
+
+
 def header():
     return S.header().replace(S.HEADER_IMPORTS, HEADER_IMPORTS)
 
@@ -146,7 +152,7 @@ def run_real(make_store, init, ops, sched, inherit=False):
             for i in range(len(ops)):
                 await drive(i)
         else:
-            raise core.CheckError("statesched: operations did not finish (deadlock?)")
+            raise NeverFinished([i for i in range(len(ops)) if i not in tasks or not tasks[i].done()])
         if hasattr(store, "_state"):
             fin = S.dump_state(store._state)
         else:
